@@ -33,12 +33,12 @@ func (c12) Rule() string {
 
 func (c12) Plan(tier string) []core.Segment {
 	return []core.Segment{
-		{Gen: "c12doc", Count: scale(tier, 300_000, 15_000_000), Desc: "directed matching/precedence documents"},
+		{Gen: "c12doc", Count: scale(tier, 900_000, 15_000_000), Desc: "directed matching/precedence documents"},
 		{Gen: "spec", Count: gen.CorpusSize(), Exhaustive: true},
 		{Gen: "specprefix", Count: gen.PrefixCount(), Exhaustive: true},
-		{Gen: "lines", Profile: "default", Count: scale(tier, 200_000, 8_000_000)},
+		{Gen: "lines", Profile: "default", Count: scale(tier, 500_000, 8_000_000)},
 		{Gen: "lines", Profile: "hostile", Count: scale(tier, 50_000, 2_000_000)},
-		{Gen: "soup", Profile: "inline", Count: scale(tier, 150_000, 6_000_000)},
+		{Gen: "soup", Profile: "inline", Count: scale(tier, 400_000, 6_000_000)},
 		{Gen: "soup", Profile: "default", Count: scale(tier, 100_000, 4_000_000)},
 		{Gen: "specmut", Count: scale(tier, 100_000, 4_000_000)},
 	}
